@@ -404,9 +404,14 @@ def main(argv=None):
                 known_hit[sig] = (f, len(lst), lst[0])
             else:
                 new_viol.append((sig, lst))
-        for sig, (f, n, first) in known_hit.items():
-            log('KNOWN-FINDING: property=%s %s (sig=%s, %d of %d runs, e.g. seed %d)' % (
-                prop, f.get('what', ''), sig, n, stats['runs'], first[0]['seed']))
+        for f in findings:
+            if f.get('property') != prop or f.get('status') != 'open':
+                continue
+            hit = known_hit.get(f.get('sig'))
+            log('KNOWN-FINDING: property=%s %s [sig=%s; %s]' % (
+                prop, f.get('short') or f.get('what', ''), f.get('sig'),
+                ('seen in %d of %d runs of this batch, e.g. seed %d' % (hit[1], stats['runs'], hit[2][0]['seed']))
+                if hit else 'not hit by this batch'))
         replays = []
         for sig, lst in new_viol:
             job, msg, v = lst[0]
